@@ -16,7 +16,7 @@ from gemdat.jumps import Jumps  # noqa: E402
 from gemdat.transitions import Transitions, _calculate_transition_events, _calculate_transitions_matrix  # noqa: E402
 
 PID = 'C05'
-MODULES = ['GProofs.Geometry', 'GProofs.C05', 'GProofs.C05Lab', 'GProofs.C05Gen']
+MODULES = ['GProofs.Geometry', 'GProofs.C05', 'GProofs.C05Lab', 'GProofs.C05Occ', 'GProofs.C05Gen']
 
 
 def build_system(rng, T=None, A=None, n_sites=None, inner=None, labels_mode=None):
@@ -121,6 +121,13 @@ def check_case(out: Outcome, case, tag):
         w2 = sum(counts[k] for k in idx) / T / len(idx)
         if abs(loc[lab] - w1) > 1e-12 or abs(byt[lab] - w2) > 1e-12:
             out.fail('property', 'occupancy-by-label', case, expected=[w1, w2], observed=[loc[lab], byt[lab]], note=lab)
+    # the same two dictionaries from GModel.OccLabels (theorems C05Occ: they add up to the occupancies / to one with the no-site fraction)
+    if all(lab and not any(ch.isspace() for ch in lab) for lab in labels):
+        toks = core.drive1(f'bylabel {n} ' + ' '.join(labels) + ' ' + core.enc_list(s.flatten()) + f' {T} {A}').split()[1:]
+        model_by = {toks[3 * k]: (float(core.dec_rat(toks[3 * k + 1])), float(core.dec_rat(toks[3 * k + 2]))) for k in range(len(toks) // 3)}
+        if set(model_by) != set(loc) or set(model_by) != set(byt) or any(abs(loc[lab] - model_by[lab][0]) > 1e-12 or abs(byt[lab] - model_by[lab][1]) > 1e-12 for lab in model_by):
+            out.fail('property', 'occupancy-by-label', case, expected={k: list(v) for k, v in model_by.items()}, observed={k: [float(loc.get(k, float('nan'))), float(byt.get(k, float('nan')))] for k in model_by},
+                     note='vs GModel.OccLabels')
     if abs(sum(loc.values()) * A * T - at_sites) > 1e-9 * max(1, at_sites):
         out.fail('property', 'atom-locations-sum', case, expected=at_sites / (A * T), observed=sum(loc.values()))
 
